@@ -567,6 +567,10 @@ func validateConstExpression(globals []GlobalType, numFuncs uint32, expr *Consta
 		if uint32(len(globals)) <= id {
 			return fmt.Errorf("global index out of range")
 		}
+		if globals[id].Mutable {
+			// https://www.w3.org/TR/2022/WD-wasm-core-2-20220419/valid/instructions.html#constant-expressions
+			return fmt.Errorf("constant expression required: global[%d] is mutable", id)
+		}
 		actualType = globals[id].ValType
 	case OpcodeRefNull:
 		if len(expr.Data) == 0 {
